@@ -158,6 +158,29 @@ class UnitTick(Process):
         return {'vars': {self.parameters['var']: 1.0 * units.fg}}
 
 
+class AdaptiveTick(Process):
+    """requests a cyclic pattern of timesteps (given in half time units) and writes down, in its own state, the
+    timesteps it is handed (adaptpar family of C02 / C13)"""
+    defaults = {'pattern': [2], 'timestep': 1.0}
+
+    def __init__(self, parameters=None):
+        super().__init__(parameters)
+        self.i = 0
+
+    def ports_schema(self):
+        return {'vars': {'code': {'_default': 0, '_updater': 'set', '_emit': True},
+                         'elapsed': {'_default': 0.0, '_emit': True}, 'calls': {'_default': 0, '_emit': True}}}
+
+    def calculate_timestep(self, states):
+        ts = self.parameters['pattern'][self.i % len(self.parameters['pattern'])] / 2
+        self.i += 1
+        return ts
+
+    def next_update(self, timestep, states):
+        return {'vars': {'code': states['vars']['code'] * 16 + int(round(2 * timestep)),
+                         'elapsed': timestep, 'calls': 1}}
+
+
 class Killer(Process):
     """serial process with timestep 1 that, at its `at`-th invocation, deletes or divides the
     compartment `target` of the 'agents' store"""
